@@ -283,6 +283,28 @@ def all_schedules(ctx, programs, terms, cap):
     return n, ex.done
 
 
+def random_schedules(ctx, programs, terms, n):
+    for _ in range(n):
+        r2 = __import__("random").Random(ctx.rng.getrandbits(32))
+        events, stuck, count, trace = run_schedule(programs, lambda k: r2.randrange(k))
+        secs, errs = sections(events)
+        for e in errs:
+            ctx.broke("harness", f"section reconstruction: {e}", str(programs))
+        monitor(ctx, programs, events, secs, stuck, count, trace)
+        ctx.count("schedules")
+        ctx.distinct_add((programs, tuple(c for c, _ in trace)))
+        if not stuck:
+            terms.append((ctup(clist([lab_term(l) for l, _ in secs], "label"), clist([OUT[o] for _, o in secs], "outcome"), cz(count)), programs, [c for c, _ in trace]))
+
+
+# a timed waiter that is woken by a release and beaten to the lock by a third thread: its second wait must end at the first deadline
+WOKEN_AND_BEATEN = [
+    ((("acq", "up", True, None), ("sleep", 3), ("rel", "up")), (("sleep", 3), ("acq", "up", True, None), ("sleep", 5)), (("acq", "down", True, 5),)),
+    ((("acq", "down", True, None), ("sleep", 1), ("rel", "down")), (("sleep", 1), ("acq", "down", True, None), ("sleep", 5)), (("acq", "up", True, 2),)),
+    ((("acq", "up", True, None), ("sleep", 3), ("rel", "up")), (("sleep", 3), ("acq", "up", True, 2), ("sleep", 3), ("rel", "up"), ("acq", "up", False, None), ("sleep", 3)), (("acq", "down", True, 5),)),
+]
+
+
 def explore(ctx):
     terms = []
     rng = ctx.rng
@@ -315,6 +337,10 @@ def explore(ctx):
             ctx.sample({"programs": [pa, pb], "schedules_enumerated": n, "exhaustive": done})
     n, done = all_schedules(ctx, ((("acq", "up", True, None), ("sleep", 1)), (("acq", "down", True, None), ("sleep", 5)), (("acq", "down", True, 3),)), terms, 300)
     used += n
+    for progs in WOKEN_AND_BEATEN:
+        n, done = all_schedules(ctx, progs, terms, 100 if ctx.quick() else 2000)
+        used += n
+        random_schedules(ctx, progs, terms, 100 if ctx.quick() else 2000)
     # three threads, sampled programs, all schedules up to a cap
     for _ in range(15 if ctx.quick() else 400):
         progs = tuple(tuple(rng.choice(base_ops) for _ in range(rng.randint(1, 2))) for _ in range(3))
